@@ -414,5 +414,35 @@ func crCases(c *core.Ctx) ([]json.RawMessage, error) {
 		}
 		c.Set("pumped_cases", np+len(runs)*24)
 	}
+	// ---- J. deep indentation: the printed projects (cut and mutated: most of them are rejected somewhere) with
+	// every line indented by 60, 120 or 190 blanks, so that lines are longer than the 200 bytes a diagnostic quotes
+	// while their visible part is short
+	{
+		base := len(out)
+		stride := c.Pick(23, 5)
+		ni := 0
+		for i := 0; i < base; i++ {
+			if (i+int(c.Seed))%stride != 0 {
+				continue
+			}
+			var cs crCase
+			if json.Unmarshal(out[i], &cs) != nil || cs.Entry != "project" || len(cs.Text) < 8 || len(cs.Text) > 2000 {
+				continue
+			}
+			ind := strings.Repeat(" ", []int{60, 120, 190}[ni%3])
+			t := string(cs.Text)
+			nl := "\n"
+			switch {
+			case strings.Contains(t, "\r\n"):
+				nl = "\r\n"
+			case strings.Contains(t, "\r"):
+				nl = "\r"
+			}
+			t = ind + strings.ReplaceAll(t, nl, nl+ind)
+			crAdd(&out, seen, crCase{Entry: "project", Text: []byte(t), Types: cs.Types, Self: cs.Self, Src: cs.Src + "/indented"})
+			ni++
+		}
+		c.Set("indented_cases", ni)
+	}
 	return out, nil
 }
